@@ -270,7 +270,9 @@ theorem gen_twistPoint_isOnCurve_eq_model_gfp (c : G2J) :
     (twistPoint_isOnCurve Dos.Gen.Bn256.Order twistB c).2 = twistIsOnCurve c := by
   rw [gen_twistPoint_isOnCurve_eq_model]; rfl
 
-/-! ## optate.go (the hand models of the line functions and the Miller loop are over the Montgomery gfP) -/
+/-! ## optate.go (the hand models of the line functions and the Miller loop are over the Montgomery gfP: the
+proofs rewrite with the ties above and compare syntactically — a plain `rfl` on a MISMATCH would start to unfold
+the Montgomery arithmetic on symbolic limbs) -/
 theorem gen_finalExponentiation_eq_model {α : Type} [Add α] [Sub α] [Neg α] [Mul α] [Zero α] [One α] [Inv α] :
     @Bn256Code.finalExponentiation α _ _ _ _ _ _ _ = finalExponentiationG := by
   funext cs u inp
@@ -282,18 +284,22 @@ theorem gen_finalExponentiation_eq_model {α : Type} [Add α] [Sub α] [Neg α] 
 theorem gen_lineFunctionAdd_eq_model (r p : G2J) (q : G1J) (r2 : F2) :
     Bn256Code.lineFunctionAdd r p q r2 =
       ((Dos.Bn256.lineFunctionAdd r p q r2).a, (Dos.Bn256.lineFunctionAdd r p q r2).b,
-       (Dos.Bn256.lineFunctionAdd r p q r2).c, (Dos.Bn256.lineFunctionAdd r p q r2).rOut) := rfl
+       (Dos.Bn256.lineFunctionAdd r p q r2).c, (Dos.Bn256.lineFunctionAdd r p q r2).rOut) := by
+  simp only [Bn256Code.lineFunctionAdd, Dos.Bn256.lineFunctionAdd, gen_gfP2_mul_eq_model, gen_gfP2_add_eq_model,
+    gen_gfP2_sub_eq_model, gen_gfP2_square_eq_model, gen_gfP2_neg_eq_model, gen_gfP2_mulScalar_eq_model]
 
 theorem gen_lineFunctionDouble_eq_model (r : G2J) (q : G1J) :
     Bn256Code.lineFunctionDouble r q =
       ((Dos.Bn256.lineFunctionDouble r q).a, (Dos.Bn256.lineFunctionDouble r q).b,
-       (Dos.Bn256.lineFunctionDouble r q).c, (Dos.Bn256.lineFunctionDouble r q).rOut) := rfl
+       (Dos.Bn256.lineFunctionDouble r q).c, (Dos.Bn256.lineFunctionDouble r q).rOut) := by
+  simp only [Bn256Code.lineFunctionDouble, Dos.Bn256.lineFunctionDouble, gen_gfP2_mul_eq_model, gen_gfP2_add_eq_model,
+    gen_gfP2_sub_eq_model, gen_gfP2_square_eq_model, gen_gfP2_neg_eq_model, gen_gfP2_mulScalar_eq_model]
 
 theorem gen_mulLine_eq_model : @Bn256Code.mulLine GFp _ _ _ _ = Dos.Bn256.mulLine := by
   funext ret a b c
-  simp only [Bn256Code.mulLine, gen_gfP6_mul_eq_model, gen_gfP6_add_eq_model, gen_gfP6_sub_eq_model,
-    gen_gfP6_mulTau_eq_model, gen_gfP6_mulScalar_eq_model, gen_gfP6_set_eq_model]
-  rfl
+  simp only [Bn256Code.mulLine, Dos.Bn256.mulLine, gen_gfP6_mul_eq_model, gen_gfP6_add_eq_model,
+    gen_gfP6_sub_eq_model, gen_gfP6_mulTau_eq_model, gen_gfP6_mulScalar_eq_model, gen_gfP6_set_eq_model,
+    gen_gfP2_set_eq_model, gen_gfP2_add_eq_model, Fp2.zero]
 
 set_option maxRecDepth 100000 in
 /-- the Miller loop: the translation is the loop UNROLLED over the 64 digits of sixuPlus2NAF (232 lets), the
@@ -311,8 +317,8 @@ theorem gen_optimalAte_eq_model :
     @Bn256Code.optimalAte GFp _ _ _ _ _ _ _ _ frobConsts uParam = Dos.Bn256.optimalAte := by
   funext a b
   simp only [Bn256Code.optimalAte, gen_miller_eq_model, gen_finalExponentiation_eq_model,
-    gen_twistPoint_isInfinity_eq_model, gen_curvePoint_isInfinity_eq_model, gen_gfP12_setOne_eq_model]
-  rfl
+    gen_twistPoint_isInfinity_eq_model, gen_curvePoint_isInfinity_eq_model, gen_gfP12_setOne_eq_model,
+    Dos.Bn256.optimalAte, Dos.Bn256.finalExponentiation]
 
 /-! ## consequences: the theorems about the hand models are theorems about the code-derived functions -/
 
